@@ -247,7 +247,7 @@ template<class T> void ycc_type(Rng& rng) {
     size_t cnt = 0;
     for (long long r : v) for (long long g : v) for (long long b : v) {
         ++cnt;
-        if (cnt % (g_thorough ? 3 : 40) != 0 && !(r == g && g == b)) continue;
+        if (cnt % (g_thorough ? 8 : 40) != 0 && !(r == g && g == b)) continue;
         if (cnt % 5 == 0) ycc_fwd<T, QM>(r, g, b); else if (cnt % 5 == 1) ycc_fwd<T, QL>(r, g, b); else ycc_fwd<T, QH>(r, g, b);
         // an arbitrary (Y, Co, Cg) triple for the inverse: luma in the value range, chroma small
         if (cnt % 3 == 0) ycc_inv<T, QH>(r, sg ? (g - b) / 2 : g / 2, sg ? (b - r) / 4 : b / 4);
